@@ -28,7 +28,7 @@ func init() {
 			}
 			// the queue inside the real pipe (real writer with its flush policy, real reader that keeps a
 			// slot locked while it collects a batch's replies): the ring wraps onto the slot being read
-			s = append(s, hsd(rootPkg, "VerifC02_wrap", nil, q(tier, 2, 3), 3000000, 3000, "batch", "single"))
+			s = append(s, hsd(rootPkg, "VerifC02_wrap", nil, 2, 3000000, 3000, "batch", "single"))
 			if tier == "thorough" {
 				s = append(s, hsd(rootPkg, "VerifC02_ring", P{"putters": 3, "puts": 2, "multi": 1, "factor": 2}, 2, 3000000, 3000, "done", "drained"))
 			}
